@@ -83,6 +83,81 @@ CHECKS = {
         "core + seeded random programs; harness-written deterministic simulator for replays.",
         "3/C18",
     ),
+    "C03": (
+        "model_checking",
+        "TLA+ RegionSampling.tla (discrete samplers exactly; the generic union/intersection/difference samplers as state machines "
+        "checked by TLC over all pairs of subsets of 5 atoms with exact rationals: ChainRule, Proportional) bound to the code by "
+        "exhaustive scripted-RNG replay of discrete compositions (exact laws), trace validation of the real generic samplers with "
+        "the same actions, and lattice classification of seeded samples by RegionGeom.tla",
+        "Layer (a): the exact law of every discrete composition (point sets, grids, point set x region) must be uniform on the "
+        "composed set computed from lattice membership; layer (b): traces of the real UnionRegion/IntersectionRegion/"
+        "DifferenceRegion samplers (choices weights, operand draws, multiplicity coin, returned point) must be behaviours of the "
+        "TLC-checked machine; layer (c): every sample of every primitive and specialised composition must be a member in all three "
+        "coordinates, polygon triangulation weights exact.",
+        "Uniformity of continuous primitive samplers is NOT decided (membership and triangulation weights only); two operands; "
+        "lattice sub-universe; seeded traces.",
+        "3/C03",
+    ),
+    "C06": (
+        "model_checking",
+        "TLA+ Specifiers.tla: the reference's declarative five-step resolution and the _resolveSpecifiers algorithm as a state "
+        "machine over the documented specifier table; TLC enumerates every word of specifier symbols per class (EvalSeesFinal, "
+        "WrittenOnce, ExactlyOne, DeclOrderIndependent, DupIsTie, DiffExplained); bound to the code by table conformance of every "
+        "documented form and class default and by replay of the emitted cases as `new C <specifiers>` in compiled Scenic programs",
+        "Every documented form's priorities, dependencies and modifying-ness and every class default are compared with the code; "
+        "each replayed (bag, permutation, class) must raise an admissible error kind or give every property its documented winner's "
+        "value in the final context, evaluated in an order satisfying the reference's dependency edges.",
+        "Tables hand-transcribed from the reference; words <= 3 (4 in 2D over 9 symbols), length 3 sampled in quick; value functions "
+        "are C07's subject; known finding tie-below-winner.",
+        "3/C06",
+    ),
+    "C09": (
+        "exploration",
+        "TLA+ PyFront.tla (Python 3.12 abstract grammar as data + Rewrite = the documented rewrites, invariants Total / "
+        "IdentityWithoutTrigger / Idempotent / PositionsPreserved checked by TLC on every enumerated tree) bound to the code by "
+        "replay: each text compiled by Scenic's parser (regenerated from scenic.gram) + compiler must equal Rewrite(CPython's "
+        "ast.parse) node by node with line numbers",
+        "Pairwise constructor coverage of Python's abstract syntax (every constructor under every field of every constructor), a "
+        "catalogue of lexical forms and every rewrite trigger, each in module / behaviour / require / specifier context.",
+        "Reduced claim (DESIGN 5): no corpus run over the standard library; the oracle is CPython's parser; columns are don't-cares.",
+        "3/C09",
+    ),
+    "C10": (
+        "exploration",
+        "TLA+ FrontEnd.tla (compilation lifecycle over the veneer state, model-checked exhaustively) + FrontEndTrace.tla validating "
+        "recorded traces of seeded token-mutation runs of scenarioFromString / parse+compile; FrontEndForms.tla formulas and every "
+        "form quoted in the reference replayed into the parser",
+        "Each mutated program must end in a scenario or a ScenicSyntaxError with a line inside the input, leave the veneer "
+        "quiescent, and its event trace must be a behaviour of the lifecycle machine; every documented form must compile with the "
+        "documented grouping.",
+        "Totality over all texts is approximated by seeded mutation of ~900 seed programs; exec-stage user errors are don't-cares.",
+        "3/C10",
+    ),
+    "C15": (
+        "model_checking",
+        "TLA+ Determinism.tla: self-composition of the sampler machine on one program and RNG stream under different environments "
+        "(dependency order, check order, internal RNG consumption, prior scenes); TLC shows the ordered model deterministic and the "
+        "set-ordered / no-restore models not; bound to the code by cross-process trace validation (DeterminismTrace.tla looks for "
+        "ONE dependency order explaining the draw traces of N perturbed fresh processes) and equality of canonical dumps",
+        "Every program is run in N fresh processes with the same seeds and different perturbations (hash seed, heap layout, jittering "
+        "clock, prior scenes); dumps (params, object properties, iterations, generator state, simulation results) must be identical "
+        "and the draw traces jointly accepted by DeterminismTrace.tla.",
+        "Finite-discrete programs plus a few dynamic ones; perturbations are a sample of the environments; counts of exposed "
+        "programs vary with the heap, the verdict does not.",
+        "3/C15",
+    ),
+    "C16": (
+        "model_checking",
+        "TLA+ RegionAlg.tla / RegionGeom.tla: structural 3-D membership, height, AABB, distance, intersects and containment of "
+        "lattice regions and their compositions with the set laws as TLC invariants over every ordered pair of a 29-region "
+        "catalogue x 700 probes; bound to the code by replay of containsPoint/z/AABB/distanceTo/intersects/containsRegion and by "
+        "TLC classifying seeded samples of every result region",
+        "The set laws hold in the spec on every (ordered pair, operation); every real answer, height and sample must agree with the "
+        "printed expectation; unsupported combinations must refuse with the documented exception kinds.",
+        "Lattice sub-universe; quick = 213 of 841 ordered pairs; containsPoint compared only in the common plane of planar "
+        "operands; projectVector and lazy operands not bound; several open known findings.",
+        "3/C16",
+    ),
     "C12": (
         "model_checking",
         "TLA+ Dynamics.tla (the reference's ten-step procedure, one action per numbered step, plus a coroutine machine for "
